@@ -51,6 +51,48 @@ def _dist2_seg(p, a, b):
     return float((p - q) @ (p - q))
 
 
+def analytic_scores_new(existing, cand, edges, paf_sigma, n_points=10, all_pairs=False):
+    """Same line integral as analytic_scores (vectorised). By default restricted to the candidate pairs that involve the
+    new animal - a cheap filter while placing animals; `all_pairs=True` evaluates the whole frame (the binding check)."""
+    animals = existing + [cand]
+    new = len(animals) - 1
+    own_min, cross_max = 1.0, 0.0
+    ts = np.linspace(0, 1, n_points)
+    for (s, d) in edges:
+        segs = [(a[s], a[d]) for a in animals if not (np.isnan(a[s]).any() or np.isnan(a[d]).any())]
+        if not segs:
+            continue
+        A0 = np.array([x[0] for x in segs])
+        E = np.array([x[1] - x[0] for x in segs])
+        L2 = np.maximum((E * E).sum(1), 1.0)
+        nE = np.linalg.norm(E, axis=1)
+        U = E / np.maximum(nE, 1e-9)[:, None]
+        pairs = []
+        for i, a in enumerate(animals):
+            for j, b in enumerate(animals):
+                if (all_pairs or i == new or j == new) and not np.isnan(a[s]).any() and not np.isnan(b[d]).any():
+                    pairs.append((i, j, a[s], b[d]))
+        for i, j, ps_, pd_ in pairs:
+            v = pd_ - ps_
+            Ln = float(np.linalg.norm(v))
+            if Ln < 1e-6:
+                continue
+            u = v / Ln
+            P = ps_[None, :] + ts[:, None] * v[None, :]  # (n_points, 2)
+            rel = P[:, None, :] - A0[None, :, :]  # (n_points, n_segs, 2)
+            t = np.clip((rel * E[None]).sum(-1) / L2[None], 0.0, 1.0)
+            q = A0[None] + t[..., None] * E[None]
+            d2 = ((P[:, None, :] - q) ** 2).sum(-1)
+            w = np.exp(-(d2 ** 2) / (2.0 * paf_sigma ** 2)) * (nE[None] >= 1e-6)
+            f = (w[..., None] * U[None]).sum(1)  # (n_points, 2)
+            sc = float((f @ u).mean())
+            if i == j:
+                own_min = min(own_min, sc)
+            else:
+                cross_max = max(cross_max, sc)
+    return own_min, cross_max
+
+
 def analytic_scores(animals_g, edges, paf_sigma, n_points=10):
     """Own-edge minimum and cross-candidate maximum of the analytic line integral (given-image coordinates)."""
     own_min, cross_max = 1.0, 0.0
@@ -86,8 +128,9 @@ def analytic_scores(animals_g, edges, paf_sigma, n_points=10):
 
 def gen_plan(rng, index, tier, opts=None):
     tiny = bool(opts and opts.get("tiny"))  # used by C12: tiny PAF grids, long edges (distance penalty active), big batches
+    crowded = (not tiny) and rng.random() < 0.15  # many animals x many nodes: more than 64 connection candidates in a frame
     for _attempt in range(300):
-        n_nodes = 2 if tiny else rng.choice([2, 3, 4, 5, 6])
+        n_nodes = 2 if tiny else (rng.choice([4, 5, 6]) if crowded else rng.choice([2, 3, 4, 5, 6]))
         perm = list(range(n_nodes))
         rng.shuffle(perm)
         edges = []
@@ -96,7 +139,9 @@ def gen_plan(rng, index, tier, opts=None):
             edges.append([a, b])
         rng.shuffle(edges)
         H, W = (rng.randint(40, 56), rng.randint(40, 56)) if tiny else (rng.randint(72, 176), rng.randint(72, 176))
-        mixed = (not tiny) and rng.random() < 0.25  # a labels file whose two videos have different frame sizes
+        if crowded:
+            H, W = rng.randint(190, 230), rng.randint(190, 230)
+        mixed = (not tiny) and (not crowded) and rng.random() < 0.25  # a labels file whose two videos have different frame sizes
         sizes = [[H, W], [rng.randint(72, 176), rng.randint(72, 176)] if mixed else [H, W]]
         r = 0.0 if tiny else rng.random()
         if mixed:
@@ -115,6 +160,9 @@ def gen_plan(rng, index, tier, opts=None):
         scale = rng.choice([0.5, 0.75, 1.0, 1.0, 1.25])
         if tiny:
             ms, ps, cs, scale = 8, 8, rng.choice([1, 2]), 1.0
+        if crowded:
+            ms, cs, ps, scale = rng.choice([2, 4]), rng.choice([1, 2]), rng.choice([1, 2]), rng.choice([1.0, 1.25])
+            r = 0.0
         sigma_cm = 1.5
         # worst perpendicular offset of a sampled PAF cell from the true edge: peak quantisation (cs/sqrt2) + nearest-cell lookup (ps/sqrt2);
         # weight exp(-d^4/2sigma^2) >= 0.9 there  <=>  sigma >= 2.24 d^2 = 1.12 (cs+ps)^2
@@ -143,8 +191,8 @@ def gen_plan(rng, index, tier, opts=None):
                 ok = False
                 break
             animals_g = []
-            for a in range(1 if tiny else rng.randint(1, 5)):
-                for _t in range(40):
+            for a in range(1 if tiny else (6 if crowded else rng.randint(1, 5))):
+                for _t in range(200 if crowded else 40):
                     cx, cy = rng.uniform(margin_g + ext_g, Wg - 1 - margin_g - ext_g), rng.uniform(margin_g + ext_g, Hg - 1 - margin_g - ext_g)
                     pts = []
                     good = True
@@ -164,14 +212,20 @@ def gen_plan(rng, index, tier, opts=None):
                     if any(np.linalg.norm(pts[j] - o[j]) < peak_sep for o in animals_g for j in range(n_nodes) if not np.isnan(o[j]).any()):
                         continue
                     cand = pts.copy()
-                    if n_nodes > 2 and rng.random() < 0.35:
+                    if n_nodes > 2 and rng.random() < (0.1 if crowded else 0.35):
                         for j in rng.sample(range(n_nodes), rng.randint(1, n_nodes - 2)):
                             cand[j] = np.nan
-                    own, cross = analytic_scores(animals_g + [cand], edges, paf_sigma)
+                    own, cross = analytic_scores_new(animals_g, cand, edges, paf_sigma)
                     if own < 0.6 or cross > 0.1:
                         continue
                     animals_g.append(cand)
                     break
+            # the binding check is on the finished frame: later animals change the field the earlier ones are scored in
+            while animals_g:
+                own, cross = analytic_scores_new(animals_g[:-1], animals_g[-1], edges, paf_sigma, all_pairs=True)
+                if own >= 0.6 and cross <= 0.1:
+                    break
+                animals_g.pop()
             if not animals_g:
                 ok = False
                 break
@@ -254,7 +308,7 @@ def components(pts, edges):
 def execute(plan, choices=None):
     violations = []
     probes = {"instances_expected": 0, "keypoints_compared": 0, "multi_animal_frames": 0, "split_animals": 0, "isolated_keypoints": 0,
-              "missing_node_animals": 0, "worst_err_over_tol_x1000_max": 0, "stride_pair_differs": 0, "degenerate_tie_scene_skipped": 0, "mixed_frame_sizes": 0}
+              "missing_node_animals": 0, "worst_err_over_tol_x1000_max": 0, "stride_pair_differs": 0, "degenerate_tie_scene_skipped": 0, "mixed_frame_sizes": 0, "connection_candidates_in_a_frame_max": 0}
 
     def V(kind, where, detail):
         violations.append({"kind": kind, "sig": f"{kind}:{where}", "detail": detail})
@@ -315,6 +369,8 @@ def execute(plan, choices=None):
                         tmpl[j] = a[j]
                     expected.append(tmpl)
             probes["instances_expected"] += len(expected)
+            ncand = sum(sum(1 for a in f["animals"] if a[e0][0] == a[e0][0]) * sum(1 for a in f["animals"] if a[e1][0] == a[e1][0]) for e0, e1 in plan["edges"])
+            probes["connection_candidates_in_a_frame_max"] = max(probes["connection_candidates_in_a_frame_max"], ncand)
             if len(f["animals"]) > 1:
                 probes["multi_animal_frames"] += 1
             preds = [P[i] for i in range(P.shape[0]) if not np.isnan(P[i]).all()]
